@@ -650,6 +650,8 @@ class FnCtx:
                 fname = '%s__%s' % (self.lw.ext_record_cname(bt), sanitize(OPNAMES.get(mname, mname)))
                 if self.lw.cfg.get('ext_overload_by_arity', {}).get(fname):
                     fname += '_%d' % len(args)
+                if fname in self.lw.cfg.get('ext_overload_by_type', []):
+                    fname += '__' + self.lw.sig_suffix([qt(a) for a in args])
         else:
             cal = strip_casts(ks[0])
             args = ks[1:]
